@@ -135,6 +135,6 @@ static void exportCase(uint64_t idx, Rng &rng, CaseResult &r) {
 
 int main(int argc, char **argv) {
   std::vector<vf::Part> parts;
-  parts.push_back({"c20.roundtrip", [](uint64_t idx, Rng &rng, CaseResult &r) { exportCase(idx, rng, r); }, 120});
+  parts.push_back({"c20.roundtrip", [](uint64_t idx, Rng &rng, CaseResult &r) { exportCase(idx, rng, r); }, 20});
   return vf::runMain(argc, argv, parts);
 }
